@@ -3,8 +3,7 @@
    input connectivity tables (sorted neighbourhoods), evaluated by Coq on the tables of every generated mesh. *)
 From Coq Require Import ZArith List Bool Relations Permutation QArith Qabs Reals Qreals.
 Import ListNotations.
-Require Import MV.Lib.Base MV.C15.Model MV.C15.Proofs MV.C15.ProofsAngle.
-Require MV.C01.Spec MV.C01.Model MV.C15.BridgeFaces MV.C15.BridgeC01 MV.C15.BridgeThm.
+Require Import MV.Lib.Base MV.C15.Model MV.C15.Proofs MV.C15.ProofsAngle MV.C15.ProofsGeo.
 
 (* from any border start the walk is a closed walk along border edges visiting each border vertex of the loop of
    the start exactly once, every border edge of that loop exactly once, with the edge ids reported *)
@@ -54,35 +53,6 @@ Theorem C15_boundary : forall s, wf_b s = true ->
 Proof. exact boundary_thm. Qed.
 Print Assumptions C15_boundary.
 
-(* The tie to C01: for EVERY oriented manifold polygon surface (C01's wf_mesh nv faces: oriented faces + one fan of
-   corners per vertex), the record read off the pure answers of C01's model of SurfaceMesh on the mesh mouette builds
-   from the face list (vertex_to_vertices with sorting on, is_vertex_on_border, boundary_vertices, boundary_edges,
-   edges) satisfies wf; its border vertices are the vertices with a half-edge that has no opposite. So the theorems
-   above need no per-case check of wf_b. *)
-Theorem C15_tables_wf_every_manifold_surface : forall nv faces, (0 <= nv)%Z -> MV.C01.Spec.wf_mesh nv faces ->
-  let s := BridgeThm.surf_of_mesh (MV.C01.Model.build_mesh nv faces) in
-  BridgeC01.tables_of (MV.C01.Model.build_mesh nv faces) s /\ wf s
-  /\ (forall x, In x (s_bverts s) <->
-        ((exists w, BridgeFaces.bhe faces w x) \/ (exists t, BridgeFaces.bhe faces x t))).
-Proof. exact BridgeThm.every_surface_wf. Qed.
-Print Assumptions C15_tables_wf_every_manifold_surface.
-
-Theorem C15_cycle_every_manifold_surface : forall nv faces, (0 <= nv)%Z -> MV.C01.Spec.wf_mesh nv faces ->
-  forall start, In start (s_bverts (BridgeThm.surf_of_mesh (MV.C01.Model.build_mesh nv faces))) ->
-  exists vb eb,
-    extract_border_cycle (BridgeThm.surf_of_mesh (MV.C01.Model.build_mesh nv faces)) (Some start) = Outcome (CycOk vb eb)
-    /\ border_cycle_of (BridgeThm.surf_of_mesh (MV.C01.Model.build_mesh nv faces)) start vb eb.
-Proof. exact BridgeThm.built_cycle. Qed.
-Print Assumptions C15_cycle_every_manifold_surface.
-
-Theorem C15_all_cycles_every_manifold_surface : forall nv faces, (0 <= nv)%Z -> MV.C01.Spec.wf_mesh nv faces ->
-  exists cycles,
-    extract_border_cycle_all (BridgeThm.surf_of_mesh (MV.C01.Model.build_mesh nv faces)) = Some cycles
-    /\ loop_partition (BridgeThm.surf_of_mesh (MV.C01.Model.build_mesh nv faces)) cycles
-    /\ Permutation (concat cycles) (s_bverts (BridgeThm.surf_of_mesh (MV.C01.Model.build_mesh nv faces))).
-Proof. exact BridgeThm.built_all_cycles. Qed.
-Print Assumptions C15_all_cycles_every_manifold_surface.
-
 (* for the record (config.sort_neighborhoods = False is outside the quantifier): on unsorted tables the walk
    takes an interior chord and revisits vertices *)
 Theorem C15_cycle_unsorted_refuted :
@@ -106,6 +76,37 @@ Theorem C15_features_only_border : forall m o x, o_only_border o = true ->
   (In x (feature_edges m o) <-> In x (f_bedges m)).
 Proof. exact feature_edges_only_border. Qed.
 Print Assumptions C15_features_only_border.
+
+(* the same classification read on the MESH GEOMETRY (FeatGeo.v): the normal direction of a face is computed from its
+   vertices as face_normals does (cross(pB-pA, pC-pA), orthogonal to the triangle's edges), the unit normals are compared
+   without square roots, and for non-degenerate faces the comparison is exactly "the angle between the unit normals of
+   the two adjacent faces exceeds 60 degrees" (resp. acos(4/5) for declared hard edges). The implementation's flagged
+   set is compared with geo_feature_edges by the correspondence on every mesh whose normals are the computed ones. *)
+Theorem C15_features_geometric : forall g ob e,
+  In e (geo_feature_edges 0 g ob) <->
+  (0 <= e < g_nE g)%Z /\
+  (In e (g_bedges g)
+   \/ (ob = false /\ (geo_lt g e (sharp_bound + 0) = Some true
+                      \/ ((exists l, g_hard g = Some l /\ In e l) /\ geo_lt g e (hard_bound + 0) = Some true)))).
+Proof. exact geo_feature_edges_spec. Qed.
+Print Assumptions C15_features_geometric.
+
+Theorem C15_unit_normals_angle : forall c1 c2 : Q3, (0 < dot3 c1 c1)%Q -> (0 < dot3 c2 c2)%Q ->
+  (-1 <= cos_between c1 c2 <= 1)%R
+  /\ (unit_dot_lt c1 c2 sharp_bound = true <-> (PI / 3 < acos (cos_between c1 c2))%R)
+  /\ (unit_dot_lt c1 c2 hard_bound = true <-> (acos (4 / 5) < acos (cos_between c1 c2))%R).
+Proof. exact geometry_thm. Qed.
+Print Assumptions C15_unit_normals_angle.
+
+Theorem C15_face_normal_direction : forall pA pB pC : Q3,
+  (dot3 (tri_cross pA pB pC) (sub3 pB pA) == 0)%Q /\ (dot3 (tri_cross pA pB pC) (sub3 pC pA) == 0)%Q.
+Proof. exact normal_thm. Qed.
+Print Assumptions C15_face_normal_direction.
+
+Theorem C15_detector_tests_are_bounds : forall d,
+  (sharp_test d = true <-> (d < sharp_bound)%Q) /\ (hard_test d false = true <-> (d < hard_bound)%Q).
+Proof. exact tests_are_bounds. Qed.
+Print Assumptions C15_detector_tests_are_bounds.
 
 (* on well-formed tables: flagged edges are edges of the mesh, each once; border edges are exactly the edges with a
    missing face, so the two dot-product sources only ever add interior edges *)
